@@ -533,7 +533,10 @@ void Node::schedule_assigned_fetch(const protocol::AnnouncePayload& payload) {
         state.endpoint = payload.endpoint;
     }
     state.manifest_uri = payload.manifest_uri;
-    state.manifest_expires = manifest.expires_at;
+    // A pending fetch must not outlive the manifest it was learned from, nor the longest lifetime
+    // this node grants to anything: cap a far-future expiry at the maximum TTL.
+    state.manifest_expires = std::min(manifest.expires_at,
+                                      std::chrono::system_clock::now() + config_.max_manifest_ttl);
     state.next_attempt = now;
     state.in_flight = false;
     state.last_dispatch = std::chrono::steady_clock::time_point{};
